@@ -16,6 +16,8 @@ pub enum Body {
     Print,
     Rem,
     Stop,
+    /// a line whose text is only statement separators (`:` / `::`): non-empty, does nothing
+    Colons,
 }
 
 #[derive(Clone, Debug, PartialEq, Serialize, Deserialize)]
@@ -69,6 +71,7 @@ fn body_text(body: &Body, tag: u32) -> String {
         Body::Print => format!("PRINT \"k{}\"", tag),
         Body::Rem => format!("REM k{}", tag),
         Body::Stop => "STOP".to_string(),
+        Body::Colons => if tag % 2 == 0 { ":".to_string() } else { ": :".to_string() },
     }
 }
 
@@ -77,6 +80,7 @@ fn listed(key: u64, body: &Body, tag: u32) -> String {
         Body::Print => format!("{} PRINT \"k{}\"\n", key, tag),
         Body::Rem => format!("{} REM k{}\n", key, tag),
         Body::Stop => format!("{} STOP\n", key),
+        Body::Colons => format!("{} {}\n", key, if tag % 2 == 0 { ":" } else { ": :" }),
     }
 }
 
@@ -95,7 +99,7 @@ fn expected_run(m: &ModelMap, from: Option<u64>) -> (Vec<Rec>, Vec<u64>, Option<
         path.push(*k);
         match b {
             Body::Print => recs.push(Rec::Print(format!("k{}\n", t))),
-            Body::Rem => {}
+            Body::Rem | Body::Colons => {}
             Body::Stop => {
                 recs.push(Rec::Break(Some(*k)));
                 return (recs, path, Some(*k));
@@ -358,6 +362,7 @@ impl Prop for C04 {
                     body: match rng.below(8) {
                         0 if stops => Body::Stop,
                         1..=2 => Body::Rem,
+                        3 => Body::Colons,
                         _ => Body::Print,
                     },
                     tag: i as u32,
